@@ -16,8 +16,33 @@ import (
 // call. Second message: the same client with a hint-less IA_PD (a renewal of
 // what it was just told), or a client never seen before.
 func VerifH_prefix_two() {
-	w := makeWorld()
+	// the state is either an arbitrary one built by the harness or the one the
+	// real setupPrefix leaves (fresh pool 2001:db8:0:8::/62 cut into /64s): what
+	// setup stores besides the pool is only ever seen through the handler it returns
+	var w *world
+	var handle func(req, resp dhcpv6.DHCPv6) (dhcpv6.DHCPv6, bool)
+	if vnd.Pick("viasetup", 0, 1) == 1 {
+		h, err := setupPrefix("2001:db8:0:8::/62", "64")
+		vnd.Assert(err == nil && h != nil, "C08 a valid pool is accepted")
+		if err != nil || h == nil {
+			return
+		}
+		pool := net.IP{0x20, 0x01, 0x0d, 0xb8, 0, 0, 0, 8, 0, 0, 0, 0, 0, 0, 0, 0}
+		w = &world{g: geom{62, 64}, n: 4, base: vnd.U128From(pool), client: anyDUID("client")}
+		w.key = recordKey(w.client)
+		handle = h
+		vnd.ClockJump()
+	} else {
+		w = makeWorld()
+		handle = w.h.Handle
+	}
 	g := w.g
+	words := func() []uint64 {
+		if w.alloc == nil {
+			return nil
+		}
+		return append([]uint64(nil), w.alloc.VerifWords()...)
+	}
 	msg1 := &dhcpv6.Message{MessageType: dhcpv6.MessageTypeSolicit}
 	msg1.AddOption(dhcpv6.OptClientID(w.client))
 	pd1 := &dhcpv6.OptIAPD{IaId: [4]byte{0, 0, 0, 1}}
@@ -26,7 +51,7 @@ func VerifH_prefix_two() {
 	}
 	msg1.AddOption(pd1)
 	resp1 := &dhcpv6.Message{MessageType: dhcpv6.MessageTypeAdvertise}
-	r1, _ := w.h.Handle(msg1, resp1)
+	r1, _ := handle(msg1, resp1)
 	vnd.Assert(r1 == dhcpv6.DHCPv6(resp1), "C08 request with a client id is answered and passed on")
 	var told []net.IPNet // what the client was told it holds
 	for _, o := range resp1.Options.IAPD() {
@@ -37,14 +62,14 @@ func VerifH_prefix_two() {
 			told = append(told, net.IPNet{IP: append(net.IP(nil), p.Prefix.IP...), Mask: append(net.IPMask(nil), p.Prefix.Mask...)})
 		}
 	}
-	mid := append([]uint64(nil), w.alloc.VerifWords()...)
+	mid := words()
 
 	same := vnd.Pick("second", 0, 1) == 0
 	client2 := w.client
 	if !same {
 		client2 = &dhcpv6.DUIDLL{HWType: dhcpIana.HWTypeEthernet, LinkLayerAddr: net.HardwareAddr{0x06, 0x5e, 0xc0, 0x4d, 0x00, 0x02}}
 		vnd.Assume(recordKey(client2) != w.key)
-		if w.hasFor {
+		if w.hasFor && w.h != nil {
 			for k := range w.h.Records {
 				if k != w.key {
 					vnd.Assume(recordKey(client2) != k)
@@ -56,7 +81,7 @@ func VerifH_prefix_two() {
 	msg2.AddOption(dhcpv6.OptClientID(client2))
 	msg2.AddOption(&dhcpv6.OptIAPD{IaId: [4]byte{0, 0, 0, 2}})
 	resp2 := &dhcpv6.Message{MessageType: dhcpv6.MessageTypeReply}
-	r2, _ := w.h.Handle(msg2, resp2)
+	r2, _ := handle(msg2, resp2)
 	vnd.Assert(r2 == dhcpv6.DHCPv6(resp2), "C08 request with a client id is answered and passed on")
 	out := resp2.Options.IAPD()
 	vnd.Assert(len(out) == 1, "C08 exactly one IA_PD per requested IA_PD")
@@ -64,7 +89,7 @@ func VerifH_prefix_two() {
 		return
 	}
 	ps := out[0].Options.Prefixes()
-	post := w.alloc.VerifWords()
+	post := words()
 	if same {
 		vnd.Cover("same-client-renews")
 		for _, t := range told {
@@ -74,7 +99,7 @@ func VerifH_prefix_two() {
 			}
 			vnd.Assert(found, "C09 a hint-less IA_PD is answered with every prefix the client was told it holds in the previous reply")
 		}
-		if len(told) > 0 {
+		if len(told) > 0 && mid != nil {
 			same := true
 			for i := range post {
 				same = vnd.And(same, post[i] == mid[i])
@@ -92,7 +117,9 @@ func VerifH_prefix_two() {
 		in, bi := blockOf(p.Prefix.IP, w.base, g)
 		vnd.Assert(in, "C08 delegated prefix lies in the pool")
 		vnd.Assume(bi < uint64(w.n))
-		vnd.Assert(!hbit(mid, bi), "C08 a new client is delegated a block nobody held after the previous message")
+		if mid != nil {
+			vnd.Assert(!hbit(mid, bi), "C08 a new client is delegated a block nobody held after the previous message")
+		}
 		for _, t := range told {
 			_, ti := blockOf(t.IP, w.base, g)
 			vnd.Assert(bi != ti, "C08 two clients served one after the other never share a block")
